@@ -39,6 +39,16 @@ def triple(rng, dom, n):
     elif r < 0.30 and dom != "prob":
         c = rng.choice([0.5, 2.0, 3.0])
         y = [c * a for a in x]                        # parallel
+    elif r < 0.38 and dom != "prob":
+        # a chain of near-equal vectors: one coordinate moves by the same small step twice (0, d, 2d with d below
+        # EPSILON, or a few ulps): equality tests with a tolerance are not transitive, exact ones are
+        j = rng.randrange(n)
+        step = rng.choice([6e-21, 6e-21, 3e-17, 1e-10])
+        b = 0.0 if (dom != "posonly" and rng.random() < 0.6) else x[j]
+        x = list(x); x[j] = b
+        y = list(x); y[j] = b + step
+        z = list(y); z[j] = b + 2 * step
+        return x, y, z
     else:
         y = gen_vec(rng, dom, n)
     z = gen_vec(rng, dom, n) if rng.random() < 0.8 else list(y)
